@@ -2,6 +2,7 @@
 from __future__ import annotations
 
 import itertools
+import re
 
 from . import core
 from .specs import (AnySpecifier, ArbitrarySpecifier, EmptySpecifier, RangeSpecifier, UnionSpecifier, Version,
@@ -236,6 +237,26 @@ def run_c04(run: core.Run, n: int) -> None:
                     (("or", ("leaf", A), ("leaf", B)) if " | " in name else ("and", ("not", ("and", ("leaf", A), ("leaf", B))), ("leaf", A)))
                 run.fail(core.Failure(f"in|{name}|{cands[i]}", f"{cands[i]} in [{name}] = {got[i]}, packaging says {want[i]}; result {res!r}",
                                       {"op": "tree", "tree": t, "v": str(cands[i])}))
+    # exhaustive triples of touching pieces: a union that grows range by range and is complemented afterwards (seed C04h:
+    # an "append" fast path in UnionSpecifier.__or__ that forgets adjacency -- the un-merged union still answers
+    # membership correctly, only its complement contains the shared bound)
+    tl = [f">={a},<{a + 1}" for a in (1, 2, 3, 4)] + [f">{a},<={a + 1}" for a in (1, 2, 3)] + [f"=={a}" for a in (1, 2, 3, 4)] + \
+         ["<1", "<=1", ">2", ">=2", ">4", "<3"]
+    tc = [Version(x) for x in ("0", "1", "1.5", "2", "2.5", "3", "3.5", "4", "4.5", "5", "6")]
+    tp = {t: parse_version_specifier(t) for t in tl}
+    tt = {t: [SpecifierSet(t).contains(v) for v in tc] for t in tl}
+    for A, B, C in itertools.product(tl, tl, tl):
+        u1, u2 = (tp[A] | tp[B]) | tp[C], tp[A] | (tp[B] | tp[C])
+        want = [not (x or y or z) for x, y, z in zip(tt[A], tt[B], tt[C])]
+        for name, res, tree_ in ((f"~((({A}) | ({B})) | ({C}))", ~u1, ("not", ("or", ("or", ("leaf", A), ("leaf", B)), ("leaf", C)))),
+                                 (f"~(({A}) | (({B}) | ({C})))", ~u2, ("not", ("or", ("leaf", A), ("or", ("leaf", B), ("leaf", C)))))):
+            n_oracle += len(tc)
+            got = [v in res for v in tc]
+            if got != want:
+                i = [g != w for g, w in zip(got, want)].index(True)
+                run.fail(core.Failure(f"in|{name}|{tc[i]}", f"{tc[i]} in [{name}] = {got[i]}, packaging says {want[i]}; result {res!r}",
+                                      {"op": "tree", "tree": tree_, "v": str(tc[i])}))
+                break
     # `===` leaves: same equation or ValueError
     for _ in range(max(50, n // 10)):
         arb = "===" + rng.choice(pool)
@@ -356,6 +377,7 @@ def run_c17(run: core.Run, n: int) -> None:
                 "<empty>||<empty>||==1.*", "||", ">=1||", "||>=1", "<empty>|| <empty>", " <empty>", "<empty> ", "<empty>,>=1", "",
                 "~=1.0.po\u017ft1", "~=1.0.prev\u0131ew1", ">=1.0.po\u017ft1", "==1.0.po\u017ft1", "~=1.0.POST1", "~=1.0.Post1||<empty>",
                 "==1.0.\u0131*", "~=1.\u0660", "===1.0||>=2",
+                ">=1." + "9" * 5000, "==1." + "9" * 4300 + ".*",       # known finding G7: CPython's int <-> str digit limit
                 "%3E%3D1.0", ">=1.0%s", ">=%(min)s,<%(max)s", "100%", ">=1.0||<2%s", "{}", ">=1.0{0}", ">=1\x00"]
     for i in range(n + len(specials)):
         if i < len(specials):
@@ -373,7 +395,14 @@ def run_c17(run: core.Run, n: int) -> None:
         kinds[kind] = kinds.get(kind, 0) + 1
         n_oracle += 1
         rep = {"op": "parse", "text": text}
-        if want_ok and kind != "ok":
+        if re.search(r"\d{4300,}", text) and kind == "raise:ValueError":
+            # known finding G7: SpecifierSet accepts the text (it parses versions lazily), the eager conversion here hits
+            # CPython's 4300-digit limit for int <-> str and the bare ValueError escapes
+            f = core.Failure("parse|" + text[:40] + "...", f"parse_version_specifier({text[:40]!r}...: {len(text)} characters) -> ValueError "
+                             "(integer string conversion limit)", rep)
+            f.family = "int-digit-limit"
+            run.fail(f)
+        elif want_ok and kind != "ok":
             run.fail(core.Failure("parse|" + text, f"parse_version_specifier({text!r}) -> {kind}; packaging accepts it", rep))
         elif not want_ok and kind != "InvalidSpecifier":
             run.fail(core.Failure("parse|" + text, f"parse_version_specifier({text!r}) -> {kind}; expected InvalidSpecifier", rep))
